@@ -1,7 +1,384 @@
-"""L2 model checking of the runtime (specs/runtime/Runtime.tla) and generation of schedules from TLC behaviours."""
+"""L2 model checking of the runtime (specs/runtime/Runtime.tla) and guided replay of TLC behaviours.
+
+Two uses of TLC on the implementation-shaped specification:
+  * exhaustive exploration of small configurations (all interleavings of message deliveries and worker steps,
+    all assignments assign_tasks allows) with the properties as invariants and -coverage;
+  * -simulate with Record = TRUE: every behaviour that reaches the idle state is printed (action, worker,
+    projection of the post-state) and REPLAYED action by action into the real AttachedServer / Worker / Compiler
+    under the SimKernel; after each action the implementation's projected state is compared with the
+    specification's.  A difference is DRIFT (reported, not a violation: L2 describes the current code, the
+    properties are decided by L1); the L1 trace recorded during the replay is validated like any other.
+"""
 from __future__ import annotations
+
+import json
+import logging
+import os
+import re
+
+from harness import common, rtcheck
+
+SPEC_DIR = os.path.join(common.SPECS, 'runtime')
+
+PROGS = {
+    'A': {'root': [['map', 'm', 'leaf', 3], ['await', 'm'], ['submit', 'a', 'leaf'], ['submit', 'b', 'leaf'], ['await', 'a'], ['await', 'b'], ['ret']], 'leaf': [['ret']]},
+    'B': {'root': [['map', 'm', 'mid', 2], ['await', 'm'], ['ret']], 'mid': [['submit', 'a', 'leaf'], ['await', 'a'], ['ret']], 'leaf': [['ret']]},
+    'N': {'root': [['map', 'm', 'leaf', 3], ['next', 'm'], ['await', 'm'], ['ret']], 'leaf': [['ret']]},
+    'M4': {'root': [['map', 'm', 'leaf', 4], ['await', 'm'], ['map', 'n', 'leaf', 2], ['await', 'n'], ['ret']], 'leaf': [['ret']]},
+    'C': {'root': [['map', 'm', 'mid', 2], ['next', 'm'], ['cancel', 'm'], ['submit', 'a', 'leaf'], ['await', 'a'], ['ret']],
+          'mid': [['submit', 'x', 'leaf'], ['await', 'x'], ['ret']], 'leaf': [['ret']]},
+    'L': {'root': [['submit', 'a', 'leaf'], ['submit', 'b', 'mid'], ['await', 'a'], ['ret']],
+          'mid': [['submit', 'x', 'leaf'], ['await', 'x'], ['ret']], 'leaf': [['ret']]},
+}
+HAS_CANCEL = {'C', 'L'}
+
+
+def tla_prog(progs):
+    def ins(i):
+        parts = []
+        for x in i:
+            parts.append('"%s"' % x if isinstance(x, str) else str(x))
+        if i[0] == 'ret':
+            parts.append('1')
+        return '<<' + ', '.join(parts) + '>>'
+    fields = ['%s |-> << %s >>' % (fn, ', '.join(ins(i) for i in body)) for fn, body in progs.items()]
+    return '[ ' + ',\n    '.join(fields) + ' ]'
+
+
+def write_mc(scratch, name, progs, nw, policy, record, invariants, depth=None):
+    mod = 'MC_' + name
+    with open(os.path.join(scratch, mod + '.tla'), 'w') as f:
+        f.write('---- MODULE %s ----\nEXTENDS Runtime\nTheProg == %s\n' % (mod, tla_prog(progs)))
+        if depth:
+            f.write('Bound == TLCGet("level") <= %d\n' % depth)
+        f.write('====\n')
+    with open(os.path.join(scratch, mod + '.cfg'), 'w') as f:
+        f.write('SPECIFICATION Spec\nCONSTANTS NW = %d\n RootFn = "root"\n Policy = "%s"\n Record = %s\n Prog <- TheProg\n' % (
+            nw, policy, 'TRUE' if record else 'FALSE'))
+        for inv in invariants:
+            f.write('INVARIANT %s\n' % inv)
+        if depth:
+            f.write('CONSTRAINT Bound\n')
+        f.write('CHECK_DEADLOCK FALSE\n')
+    return os.path.join(scratch, mod + '.tla'), os.path.join(scratch, mod + '.cfg')
+
+
+def exhaustive(ctx, prop):
+    """TLC exhaustive runs; returns (coverage dict, notes)."""
+    base_inv = ['RunAtMostOnce', 'NoErr', 'CountersInBounds', 'ClientAnswered']
+    quick = {'C07': [('A', 2), ('B', 2), ('N', 2)], 'C12': [('A', 2), ('L', 2), ('C', 2)], 'C15': [('A', 2), ('B', 2), ('M4', 2)]}
+    thorough = {'C07': [('A', 2), ('A', 3), ('B', 2), ('B', 3), ('N', 2), ('N', 3), ('M4', 3)],
+                'C12': [('A', 2), ('C', 2), ('L', 2), ('L', 3)],
+                'C15': [('A', 2), ('A', 3), ('B', 3), ('M4', 2), ('M4', 3), ('N', 3)]}
+    configs = (quick if ctx.quick else thorough)[prop]
+    states = trans = 0
+    notes = []
+    per = {}
+    actions = {}
+    def one(cfgitem):
+        name, nw = cfgitem
+        inv = list(base_inv)
+        if name not in HAS_CANCEL:
+            inv += ['NoResidue', 'CountersAtRest']
+        spec, cfg = write_mc(ctx.scratch, '%s%d' % (name, nw), PROGS[name], nw, 'any', False, inv)
+        return common.tlc(spec, cfg, scratch=ctx.scratch, timeout=1500, coverage=(name, nw) == ('A', 2), cwd=ctx.scratch, workers=4, heap='4g')
+    from concurrent.futures import ThreadPoolExecutor
+    with ThreadPoolExecutor(4) as ex:
+        rs = list(ex.map(one, configs))
+    for (name, nw), r in zip(configs, rs):
+        if not r.ok:
+            # an invariant of the L2 model failed (or TLC broke): a design-level counterexample is a machinery-level
+            # event here - the properties are decided on the real code by L1 - but it must not go unnoticed
+            m = re.search(r'Invariant (\w+) is violated', r.out)
+            if m:
+                notes.append('L2-COUNTEREXAMPLE config=%s%d invariant=%s (TLC found a behaviour of the implementation-shaped model '
+                             'that breaks it; see DESIGN.md)' % (name, nw, m.group(1)))
+            else:
+                raise common.MachineryError('TLC failed on L2 config %s%d: %s' % (name, nw, r.error[:500]))
+        states += r.distinct
+        trans += r.states
+        per['%s/%dw' % (name, nw)] = [r.distinct, r.states, r.depth]
+        if r.coverage:
+            # the six disjuncts of Next (ClientSubmit, ServerRecv, WorkerIn, StepTask, StartDelayed, GoIdle), by source line
+            actions = {k: v for k, v in r.coverage.items() if k.startswith('Next@')}
+            dead = [k for k, v in actions.items() if v == 0]
+            if dead or len(actions) < 6:
+                raise common.MachineryError('L2 actions never taken (vacuous model): %s of %s' % (dead, actions))
+    return {'l2_states': states, 'l2_transitions': trans, 'l2_configs': per, 'l2_action_counts': actions}, notes
+
+
+# ------------------------------------------------------------------ guided replay
+
+class Drift(Exception):
+    pass
+
+
+class Replayer:
+    """Replays one L2 behaviour (list of {a, w, p}) into the real attached runtime."""
+
+    def __init__(self, progs, nw):
+        from harness import rtdrive, rtprog, sim
+        self.sim = sim
+        sc = {'topo': ['attached', nw], 'progs': progs, 'clients': [[['submit', 'H0', 'root'], ['result', 'H0']]],
+              'sched': ['replay', [], []], 'lines': False, 'crash': None, 'probe': False}
+        self.run = rtdrive.Run(sc)
+        self.k = self.run.k
+        self.net = self.run.net
+        self.nw = nw
+        import bqskit.runtime.worker as W
+        self.anchored = self.k.trace_anchor(W.Worker._get_next_ready_task, '_ready_task_ids.empty()', 'top')
+        self.go = False
+        run = self.run
+        rep = self
+
+        def client():
+            import bqskit.compiler.compiler as C
+            from bqskit.ir.circuit import Circuit
+            comp = C.Compiler(ip='sim', port=7472)
+            comp.p = sim.FakePopen(self.net, 'server')
+            self.k.yield_(('gate',), lambda: rep.go)
+            run.pending[0] = ('submit', 1)
+            rtprog.ev('ClientCall', c=1, call='submit', cid=1)
+            try:
+                u = comp.submit(Circuit(1), [rtprog.RootPass('root', 1)], request_data=True)
+                run.uuid2cid[u] = 1
+                rtprog.ev('ClientReturn', c=1, call='submit', cid=1, kind='ok')
+                rtprog.ev('ClientCall', c=1, call='result', cid=1)
+                run.pending[0] = ('result', 1)
+                r = comp.result(u)
+                rtprog.ev('ClientReturn', c=1, call='result', cid=1, kind='result', v=r[1]['out'])
+            except Exception as e:
+                cause, booms, text = rtdrive.classify_error(e)
+                rtprog.ev('ClientReturn', c=1, call=run.pending[0][0], cid=1, kind='error', cause=cause, boom=booms, text=text[-300:])
+            run.pending[0] = None
+            run.at_gate.add(0)
+            self.k.yield_(('gate2',), lambda: run.gate_open)
+            try:
+                comp.close()
+            except Exception:
+                pass
+        run.spawn_topology()
+        run.pending[0] = None
+        self.tclient = self.k.spawn('client0.main', client, node='client0')
+        self.tserver = None
+
+    # low-level stepping
+    def enabled(self, t):
+        return t.state == 'ready' or (t.state == 'blocked' and t.cond())
+
+    def step(self, t):
+        if not self.enabled(t):
+            raise Drift('thread %s not enabled (at %s)' % (t.name, t.why))
+        self.k.step(t)
+
+    def run_until(self, t, pred, limit=20000):
+        n = 0
+        while True:
+            self.step(t)
+            n += 1
+            if t.state == 'done' or pred(t):
+                return
+            if n > limit:
+                raise Drift('no end label reached by %s' % t.name)
+
+    def server_threads(self):
+        ts = [t for t in self.k.threads if t.node == 'server']
+        main = [t for t in ts if t.name == 'server.main'][0]
+        return main, [t for t in ts if t is not main]
+
+    def flush_outgoing(self):
+        main, others = self.server_threads()
+        for t in others:
+            while t.state != 'done' and self.enabled(t):
+                self.step(t)
+
+    def settle(self):
+        """Run everything except worker main threads parked at 'top' and the gated client until nothing else can move."""
+        progress = True
+        while progress:
+            progress = False
+            for t in list(self.k.threads):
+                if t.state == 'done' or t.why == ('label', 'top'):
+                    continue
+                if t is self.tclient and t.why in (('gate',), ('gate2',)):
+                    continue
+                if self.enabled(t):
+                    self.step(t)
+                    progress = True
+
+    def worker(self, w):
+        node = 'w%d' % w
+        wk = self.net.workers[node]
+        ts = [t for t in self.k.threads if t.node == node]
+        main = [t for t in ts if t.name == node + '.main'][0]
+        inc = [t for t in ts if t is not main][0]
+        return wk, main, inc
+
+    def server(self):
+        return self.net.servers['server']
+
+    def proj(self):
+        p = {k: {} for k in ('rq', 'dl', 'nt', 'nb', 'up', 'dn', 'ent', 'eid', 'pc')}
+        srv = self.server()
+        for w in range(self.nw):
+            wk, main, inc = self.worker(w)
+            e = srv.employees[w]
+            p['rq'][str(w)] = len(wk._ready_task_ids.q)
+            p['dl'][str(w)] = len(wk._delayed_tasks)
+            p['nt'][str(w)] = len(wk._tasks)
+            p['nb'][str(w)] = len(wk._mailboxes)
+            p['up'][str(w)] = len(e.conn.rx.q)
+            p['dn'][str(w)] = len(e.conn.tx.q)
+            p['ent'][str(w)] = e.num_tasks
+            p['eid'][str(w)] = e.num_idle_workers
+            p['pc'][str(w)] = 'blocked' if main.why and main.why[0] == 'qget' else 'top'
+        return p
+
+    def prepare(self):
+        if not self.anchored:
+            raise Drift('statement anchor "_ready_task_ids.empty()" missing in Worker._get_next_ready_task')
+        self.settle()
+        for w in range(self.nw):
+            wk, main, inc = self.worker(w)
+            if main.why != ('label', 'top'):
+                self.run_until(main, lambda t: t.why == ('label', 'top'))
+        self.settle()
+        self.tserver = self.server_threads()[0]
+
+    def act(self, a, w):
+        srv = self.server()
+        if a == 'ClientSubmit':
+            self.go = True
+            self.run_until(self.tclient, lambda t: t.why[0] == 'recv')      # SUBMIT and REQUEST sent, waiting for the result
+            cconn = list(srv.clients.keys())[0]
+            while cconn.readable() and len(cconn.rx.q) > 0:
+                self.net.force_select = cconn
+                self.run_until(self.tserver, lambda t: t.why == ('select',))
+            self.flush_outgoing()
+        elif a == 'ServerRecv':
+            self.net.force_select = srv.employees[w].conn
+            self.run_until(self.tserver, lambda t: t.why == ('select',))
+            self.flush_outgoing()
+        elif a == 'WorkerIn':
+            wk, main, inc = self.worker(w)
+            self.run_until(inc, lambda t: t.why[0] == 'recv')
+        elif a in ('StepTask', 'StartDelayed'):
+            wk, main, inc = self.worker(w)
+            self.run_until(main, lambda t: t.why == ('label', 'top'))
+        elif a == 'GoIdle':
+            wk, main, inc = self.worker(w)
+            self.run_until(main, lambda t: t.why[0] == 'qget')
+        else:
+            raise Drift('unknown action ' + a)
+
+    def finish(self):
+        """Release everything and let the run end under a fair scheduler; returns (trace, diag)."""
+        from harness import rtprog
+        self.k.anchors.clear()
+        status = self.k.run(300000)
+        settled = 0 in self.run.at_gate
+        self.run.snapshot(final=False, settled=settled and status == 'quiescent')
+        self.run.gate_open = True
+        status = self.k.run(300000)
+        self.run.snapshot(final=True, settled=False)
+        return self.run.finish(status)
+
+
+def replay_behaviour(progs, nw, beh):
+    """Returns (verdict, index, detail, trace, diag)."""
+    r = Replayer(progs, nw)
+    verdict, idx, detail = 'ok', len(beh), ''
+    try:
+        r.prepare()
+        for i, st in enumerate(beh):
+            r.act(st['a'], st['w'])
+            got = r.proj()
+            exp = {k: {str(kk): vv for kk, vv in _as_items(st['p'][k])} for k in got}
+            if got != exp:
+                diff = {k: (exp[k], got[k]) for k in got if got[k] != exp[k]}
+                verdict, idx, detail = 'drift', i, '%s(%s): expected/got %s' % (st['a'], st['w'], json.dumps(diff))
+                break
+    except Drift as e:
+        verdict, idx, detail = 'drift', -1, str(e)
+    trace, diag = r.finish()
+    return verdict, idx, detail, trace, diag
+
+
+def _as_items(v):
+    # ToJson renders a function with domain 0..n-1 as a JSON list or object depending on the domain
+    if isinstance(v, dict):
+        return v.items()
+    return enumerate(v)
+
+
+def _replay_job(job):
+    progs, nw, beh = job
+    logging.disable(logging.CRITICAL)
+    try:
+        v, i, d, tr, dg = replay_behaviour(progs, nw, beh)
+        return v, i, d, tr, dg, None
+    except Exception:
+        import traceback
+        return 'error', -1, '', None, None, traceback.format_exc()[-1200:]
+
+
+def simulate_and_replay(ctx, prop):
+    """TLC -simulate on the deterministic-assignment instances -> behaviours -> guided replays."""
+    import multiprocessing as mp
+    names = {'C07': ['A', 'B', 'N'], 'C15': ['A', 'M4', 'B'], 'C12': ['C', 'L']}[prop]
+    num = 20 if ctx.quick else 500
+    jobs = []
+    sim_states = 0
+    for name in names:
+        for nw in (2, 3):
+            spec, cfg = write_mc(ctx.scratch, 'S%s%d' % (name, nw), PROGS[name], nw, 'det', True, ['Dump'])
+            r = common.tlc(spec, cfg, scratch=ctx.scratch, timeout=600, workers=1, simulate='num=%d' % num, depth=300,
+                           seed=ctx.seed + 1, cwd=ctx.scratch)
+            behs = []
+            for v in r.prints:
+                if v and v[0] == 'BEHAVIOUR':
+                    try:
+                        behs.append(json.loads(v[1]))
+                    except Exception:
+                        pass
+            sim_states += r.states
+            seen = set()
+            for b in behs:
+                h = common.digest(b)
+                if h not in seen:
+                    seen.add(h)
+                    jobs.append((PROGS[name], nw, b))
+    if not jobs:
+        raise common.MachineryError('TLC simulation produced no behaviours to replay')
+    cx = mp.get_context('fork')
+    with cx.Pool(12, initializer=rtcheck._init_worker) as pool:
+        res = pool.map(_replay_job, jobs, chunksize=2)
+    drift = 0
+    first = None
+    traces = []
+    acts = 0
+    errors = [r[5] for r in res if r[5]]
+    if len(errors) > len(res) // 10:
+        raise common.MachineryError('guided replay failed: %s' % errors[0])
+    for (progs, nw, beh), (v, i, d, tr, dg, err) in zip(jobs, res):
+        if err:
+            continue
+        acts += len(beh) if v == 'ok' else max(i, 0)
+        if v == 'drift':
+            drift += 1
+            if first is None:
+                first = 'DRIFT property=%s step=%d %s (code and L2 model disagree on a projected state component; not a violation)' % (prop, i, d[:300])
+        traces.append((tr, dg, {'topo': ['attached', nw], 'progs': progs, 'clients': [[['submit', 'H0', 'root'], ['result', 'H0']]],
+                                'sched': ['replay', dg['picks'], dg['choices']], 'lines': False, 'crash': None, 'probe': False, 'guided': True}))
+    cov = {'l2_behaviours_replayed': len(jobs), 'l2_actions_replayed_with_equal_projection': acts, 'l2_replay_drift': drift,
+           'l2_simulated_states': sim_states}
+    notes = [first] if first else []
+    return cov, traces, notes
 
 
 def model_check_and_generate(prop, ctx):
-    """Returns (coverage dict to merge, extra scenarios derived from TLC behaviours, notes)."""
-    return {}, [], []
+    """Returns (coverage dict to merge, extra pre-recorded traces [(trace, diag, scenario)], notes)."""
+    cov, notes = exhaustive(ctx, prop)
+    cov2, traces, notes2 = simulate_and_replay(ctx, prop)
+    cov.update(cov2)
+    return cov, traces, notes + notes2
